@@ -208,8 +208,15 @@ class Statement(object):
         positive_range = True
 
         rel_index = self.code_pkg.additional.int
+        expression_offset = 0
         if self.operand.left.is_address_expression():
             rel_index = self.operand.left.extract_address_index_from_expression()
+            if self.operand.left.operation not in ["+", "-"]:
+                self.force_pcr_16_bit()
+                return
+            # A constant added to or taken from the label moves the target by at most its magnitude
+            expression = self.operand.left
+            expression_offset = expression.right.int if expression.left.is_address() else expression.left.int
 
         range_count = range(this_index, rel_index)
         if rel_index < this_index:
@@ -221,8 +228,8 @@ class Statement(object):
             min_size += statements[x].code_pkg.size
 
         raw_post_byte = self.code_pkg.post_byte.int
-        max_size += 2
-        min_size += 2
+        max_size += 2 + expression_offset
+        min_size += 2 + expression_offset
 
         if positive_range:
             if min_size <= 127 and max_size <= 127:
